@@ -64,7 +64,26 @@ fn main() {
     }
     silence_panics();
     let ctx = Ctx { tier, seed, threads };
-    let rep = Report::new(&id);
+    // leaked: the hang watchdog keeps a reference for the life of the process
+    let rep: &'static Report = Box::leak(Box::new(Report::new(&id)));
+    {
+        // the watchdog's way out: write the report collected so far (a stuck worker cannot be joined)
+        let out = out.clone();
+        let _ = EMERGENCY_EXIT.set(Box::new(move || {
+            let j = rep.to_json(tier, seed);
+            let text = serde_json::to_string_pretty(&j).unwrap_or_default();
+            match &out {
+                Some(p) => {
+                    let _ = std::fs::write(p, text);
+                }
+                None => println!("{text}"),
+            }
+            std::process::exit(0);
+        }));
+    }
+    if matches!(id.as_str(), "C01" | "C07" | "C08" | "C09") {
+        start_watchdog(rep, "hang", 20);
+    }
     if let Some(p) = replay {
         let text = std::fs::read_to_string(&p).expect("replay file");
         let v: serde_json::Value = serde_json::from_str(&text).expect("replay json");
@@ -73,7 +92,7 @@ fn main() {
         // run the single case twice and demand identical observations
         let r1 = Report::new(&id);
         dispatch_replay(&id, &w, &r1);
-        dispatch_replay(&id, &w, &rep);
+        dispatch_replay(&id, &w, rep);
         let a = r1.to_json(tier, seed)["violations"].to_string();
         let b = rep.to_json(tier, seed)["violations"].to_string();
         if a != b {
@@ -83,7 +102,7 @@ fn main() {
         rep.eval(1);
         rep.note("replay", serde_json::json!(p));
     } else {
-        dispatch(&id, &ctx, &rep);
+        dispatch(&id, &ctx, rep);
     }
     let j = rep.to_json(tier, seed);
     let text = serde_json::to_string_pretty(&j).unwrap();
